@@ -53,16 +53,25 @@ func (o *orderSequenceByDependencies) nodeByFetchID(id int, root *resolve.FetchT
 }
 
 func (o *orderSequenceByDependencies) nodeDependsOn(node, root *resolve.FetchTreeNode) []int {
-	dependencies := node.Item.Fetch.Dependencies().DependsOnFetchIDs
-	result := make([]int, 0, len(dependencies))
-	for _, dep := range dependencies {
-		result = append(result, dep)
-		if child := o.nodeByFetchID(dep, root); child != nil {
-			result = append(result, o.nodeDependsOn(child, root)...)
+	seen := map[int]struct{}{}
+	var collect func(n *resolve.FetchTreeNode)
+	collect = func(n *resolve.FetchTreeNode) {
+		for _, dep := range n.Item.Fetch.Dependencies().DependsOnFetchIDs {
+			if _, ok := seen[dep]; ok {
+				continue
+			}
+			seen[dep] = struct{}{}
+			if child := o.nodeByFetchID(dep, root); child != nil {
+				collect(child)
+			}
 		}
 	}
+	collect(node)
+	result := make([]int, 0, len(seen))
+	for id := range seen {
+		result = append(result, id)
+	}
 	slices.Sort(result)
-	result = slices.Compact(result)
 	return result
 }
 
